@@ -29,13 +29,13 @@ CLAIMS = {
          "MIR dataflow + polynomial identity of partition indices + type/field walk for shared state", True),
 
  "C18": ("other",
-         "Taint/dominance analysis on MIR of all 30 ReaderFrom impls (+ inherent readers) and their writers: stream-derived header values never enter unchecked arithmetic, allocation lengths or slice bounds that are not compared with the very slice indexed; dimension fields are committed only after a dominating validation chain that ends at the receiver's buffer; no failure is reachable after a metadata commit (documented atomicity); writer and reader emit/consume the same sequence of (width, endianness, field, nesting) items on every success path; no backend code involved; delegated reads inside element loops count as commits (SER-3); a receiver container whose length bounds the incoming length is not replaced by the commit (SER-8); a committed capacity is the validated header value or that value clamped to what the receiver's buffer holds (SER-2). Decides the reject-without-corruption and format-agreement clauses for every stream at once; equality of payload bytes is not decided.",
+         "Taint/dominance analysis on MIR of all 30 ReaderFrom impls (+ inherent readers) and their writers: stream-derived header values never enter unchecked arithmetic (in the reader or in a library function they are handed to), allocation lengths or slice bounds that are not compared with the very slice indexed; dimension fields are committed only after a dominating validation chain that ends at the receiver's buffer; no failure is reachable after a metadata commit (documented atomicity); writer and reader emit/consume the same sequence of (width, endianness, field, nesting) items on every success path; no backend code involved; delegated reads inside element loops count as commits (SER-3); a receiver container whose length bounds the incoming length is not replaced by the commit (SER-8); a committed capacity is the validated header value or that value clamped to what the receiver's buffer holds (SER-2). Decides the reject-without-corruption and format-agreement clauses for every stream at once; equality of payload bytes is not decided.",
          "DESIGN.md §3 C18",
          "Trusted: std::io read_exact/write_all and byteorder semantics; genuine violations on the unchanged tree are listed in known_findings.jsonl (8: multi-part keys commit sub-objects / elements one after the other).",
          "MIR taint tracking + dominator-based guard validation + path-trace comparison of writer/reader", True),
 
  "C06": ("other",
-         "Interprocedural role inference over every `&mut Source` / seed value (fixpoint over ~300 functions in all layers and backends) plus must-call analysis on the do-while-abstracted CFG: every routine that draws a mask or error stream injects noise on every returning path; result-writing normalisations in the three noise kernels are dominated by a noise sink in the same loop; mask streams feed masks only; parameters named source_xe/source_xa/seed_xa/source_xu have exactly that role; NoiseInfos comes from the caller's enc_infos; noise, mask and normalisation use one radix; no constant or loop-invariant seeds; no other entropy; HashMap iteration order neutralised; fixed-Hamming-weight samplers set each of their hw slots to a value that is non-zero for both values of the random bit (RND-8). Decides the injection / seed-separation / determinism clauses on all paths of all routines; sigma, bound and uniformity statistics are not decided.",
+         "Interprocedural role inference over every `&mut Source` / seed value (fixpoint over ~300 functions in all layers and backends) plus must-call analysis on the do-while-abstracted CFG: every routine that draws a mask or error stream injects noise on every returning path; result-writing normalisations in the three noise kernels are dominated by a noise sink in the same loop; mask streams feed masks only; parameters named source_xe/source_xa/seed_xa/source_xu have exactly that role; NoiseInfos comes from the caller's enc_infos; noise, mask and normalisation use one radix; no constant or loop-invariant seeds; no other entropy; HashMap iteration order neutralised; fixed-Hamming-weight samplers set each of their hw slots to a value that is non-zero for both values of the random bit (RND-8); sigma and truncation bound of every Gaussian sampling site carry the same scale factor (RND-9). Decides the injection / seed-separation / determinism clauses on all paths of all routines; sigma, bound and uniformity statistics are not decided.",
          "DESIGN.md §3 C06",
          "Trusted: the sampling primitives below the HAL behave as documented; do-while abstraction of row/column loops.",
          "MIR dataflow: interprocedural role inference + post-dominator must-call + symbolic radix equality", True),
@@ -52,12 +52,12 @@ CLAIMS = {
          "Trusted: kernels write the whole limb slice they are given; unknown guards are assumed falsifiable.",
          "MIR loop/range extraction + exact min/max lattice evaluation of limb coverage + column polynomial identity", True),
  "C09": ("other",
-         "Only the size rule of C09 (extra result limbs zero, extra operand limbs ignored, exact column) is decided: WR-1/WR-2 restricted to the C09 anchor files and agreement of the small / FFT64-big / NTT120-big implementations on their coverage verdict, plus two sign-discipline clauses: in res = a - b families a write from b alone negates and a write from a alone does not (SIGN-1), and a negacyclic split kernel's one-polarity path, and any skip of a rotation kernel, is decided by the residue of the exponent modulo 2N (SIGN-2). Index maps mod 2N, group laws, split/merge are not decided.",
+         "Only the size rule of C09 (extra result limbs zero, extra operand limbs ignored, exact column) is decided: WR-1/WR-2 restricted to the C09 anchor files and agreement of the small / FFT64-big / NTT120-big implementations on their coverage verdict, plus two sign-discipline clauses: in res = a - b families a write from b alone negates and a write from a alone does not (SIGN-1), and a negacyclic split kernel's one-polarity path, and any skip of a rotation kernel, is decided by the residue of the exponent modulo 2N (SIGN-2); the Galois-element helpers use the ring degree only as 2*n() / cyclotomic_order() (SIGN-3). Index maps mod 2N, group laws, split/merge are not decided.",
          "DESIGN.md §3 C02 and C09, §8",
          "Trusted: per-limb kernels compute the ring map.",
          "shared limb-coverage / column analysis restricted to the C09 files + sibling verdict comparison", True),
  "C02": ("other",
-         "Only the shape clause of C02 is decided: result columns of the noise-free GLWE operations are all written (COL-1, over every rank assignment of a grid), the underlying shape functions cover every limb and honour columns (WR-1/WR-2 on the C02 files), each in-place variant uses the in-place twins of its out-of-place sibling's HAL operations (SIB-1), and the operand-sign discipline of the add/sub families holds for mixed ranks (SIGN-1), the in-place negating forms visit every column of the result (COL-1), read operands are indexed within their own rank (COL-2) and limb-wise two-operand operations compare the radices of the objects they move limbs between (COL-3). Phase linearity is arithmetic and not decided.",
+         "Only the shape clause of C02 is decided: result columns of the noise-free GLWE operations are all written (COL-1, over every rank assignment of a grid), the underlying shape functions cover every limb and honour columns (WR-1/WR-2 on the C02 files), each in-place variant uses the in-place twins of its out-of-place sibling's HAL operations (SIB-1), and the operand-sign discipline of the add/sub families holds for mixed ranks (SIGN-1), the in-place negating forms visit every column of the result (COL-1), read operands are indexed within their own rank (COL-2) and limb-wise two-operand operations compare the radices of the objects they move limbs between (COL-3), the carry chain of every right shift has size(operand) + steps steps for all sizes and shifts (NRM-2, piecewise-linear identity over loop trip counts) and carry buffers are written before they are read (WR-6). Phase linearity is arithmetic and not decided.",
          "DESIGN.md §3 C02 and C09, §8",
          "Trusted: HAL kernels; asserted rank preconditions.",
          "shared limb/column coverage analysis + call-set comparison of assign twins", True),
